@@ -73,7 +73,9 @@ public:
       {
         static const uint64_t lens[] = {20000, 60000, 120000};
         stall_len_ = lens[sb % 3];
-        stall_at_  = rd_.u8() | (static_cast<unsigned>(rd_.u8() & 3) << 8);
+        unsigned b1 = rd_.u8(), b2 = rd_.u8();
+        // 0..1023, skewed towards early decisions (short scenarios have only a few dozen)
+        stall_at_ = (b1 | ((b2 & 3u) << 8)) >> ((b2 >> 2) & 3u);
       }
     }
   }
